@@ -60,6 +60,9 @@ pub fn c09_auth(cx: &mut Ctx) {
         }
         let k = kind_of(c.id);
         let admitted = c.auth_ok_seq.is_some();
+        if cx.spec.clients.iter().any(|x| x.id == c.id && x.tls) && cx.param_bool("tls") {
+            cx.probe(if admitted { "c09_tls_client_admitted" } else { "c09_tls_client_refused" });
+        }
         let sec = secret(&c.database, &c.user, c.connect_us, c.connect_seq);
         let is_admin_db = c.database == "pgcat" || c.database == "pgbouncer";
         let during_shutdown = sigint.map(|(_, us, _)| c.connect_us > us + 1_000).unwrap_or(false);
